@@ -331,7 +331,7 @@ def gen_document(rng, layout: str) -> Tuple[Dict[int, Tuple[int, Any]], int, int
     objs[info] = (0, {"Title": gen_string(rng), "Author": b"A. U. Thor", "Empty": b"",
                       "CreationDate": b"D:20240101000000Z", "Custom": gen_value(rng)})
     n += 1
-    free_gen = layout == "table"
+    free_gen = True
     for _ in range(rng.randrange(1, 6)):
         oid = n
         if free_gen and rng.random() < 0.35:
@@ -359,7 +359,7 @@ def gen_document(rng, layout: str) -> Tuple[Dict[int, Tuple[int, Any]], int, int
                           flate=False)
         objs[oid] = (gen, v)
     members: List[int] = []
-    if layout == "xrefstm":
+    if layout in ("xrefstm", "hybrid"):
         cand = [k for k, (g, v) in objs.items() if g == 0 and not isinstance(v, R.PStream)]
         members = sorted(k for k in cand if rng.random() < 0.7)
     return objs, 1, info, members
@@ -404,8 +404,9 @@ def same_password_variants(rng, cfg: R.Cfg) -> List[str]:
 
 class Case:
     def __init__(self, cfg: R.Cfg, objs, root, info, members, layout: str, indirect: bool, wseed: int,
-                 passwords: List[str], eol: bytes = b"\n"):
+                 passwords: List[str], eol: bytes = b"\n", old=None):
         self.cfg, self.objs, self.root, self.info, self.members = cfg, objs, root, info, members
+        self.old: Dict[int, Tuple[int, Any]] = dict(old or {})    # first-revision versions (incremental update)
         self.layout, self.indirect, self.wseed, self.passwords, self.eol = layout, indirect, wseed, passwords, eol
 
     def to_json(self) -> Dict[str, Any]:
@@ -413,13 +414,15 @@ class Case:
                 "objs": [[n, g, tree_to_json(v)] for n, (g, v) in sorted(self.objs.items())],
                 "root": self.root, "info": self.info, "members": self.members, "layout": self.layout,
                 "indirect": self.indirect, "wseed": self.wseed,
-                "passwords": [[ord(c) for c in p] for p in self.passwords], "eol": self.eol.hex()}
+                "passwords": [[ord(c) for c in p] for p in self.passwords], "eol": self.eol.hex(),
+                "old": [[n, g, tree_to_json(v)] for n, (g, v) in sorted(self.old.items())]}
 
     @staticmethod
     def from_json(j: Dict[str, Any]) -> "Case":
         return Case(R.Cfg.from_json(j["cfg"]), {n: (g, tree_from_json(v)) for n, g, v in j["objs"]}, j["root"],
                     j["info"], j["members"], j["layout"], j["indirect"], j["wseed"],
-                    ["".join(chr(c) for c in p) for p in j["passwords"]], bytes.fromhex(j.get("eol", "0a")))
+                    ["".join(chr(c) for c in p) for p in j["passwords"]], bytes.fromhex(j.get("eol", "0a")),
+                    {n: (g, tree_from_json(v)) for n, g, v in j.get("old", [])})
 
     def write(self, encrypted: bool = True) -> R.Written:
         rng = random.Random(self.wseed)
@@ -427,16 +430,27 @@ class Case:
         if encrypted:
             R.derive(self.cfg, rng)
         return R.write_document(self.objs, self.root, cfg, rng, self.layout, self.indirect, self.info,
-                                self.members, self.eol)
+                                self.members, self.eol, self.old)
 
 
 def gen_case(rng, force: Optional[str] = None) -> Case:
     cfg = gen_cfg(rng, force)
-    layout = "xrefstm" if rng.random() < 0.4 else "table"
+    layout = rng.choice(["table", "table", "xrefstm", "xrefstm", "hybrid"])
     objs, root, info, members = gen_document(rng, layout)
+    old = {}
+    if rng.random() < 0.3:
+        # incremental update: some objects have an older version in a first revision
+        cand = [n for n, (g, v) in objs.items() if n > info]
+        for n in rng.sample(cand, min(len(cand), rng.choice([1, 2]))):
+            g, v = objs[n]
+            if n in members or not isinstance(v, R.PStream):
+                ov: Any = [b"old version", gen_string(rng)]
+            else:
+                ov = R.PStream({}, b"old " + gen_string(rng), flate=False)
+            old[n] = (g, ov)
     pws = [cfg.user, cfg.effective_owner()] + same_password_variants(rng, cfg) + wrong_passwords(rng, cfg)
     return Case(cfg, objs, root, info, members, layout, rng.random() < 0.5, rng.randrange(1 << 30), pws,
-                rng.choice([b"\n", b"\n", b"\r\n"]))
+                rng.choice([b"\n", b"\n", b"\r\n"]), old)
 
 
 WILD = ["V3", "V0", "R-mismatch", "filter", "stmf-strf", "cfm-unknown", "cfm-wrong-class", "strf-undefined",
@@ -582,7 +596,7 @@ def check_case(ctx: C.Ctx, case: Case, do_text: bool, quiet: bool = False) -> Li
                 got = ["t:" + hx(x.get_data())] + canon_impl(x.attrs.get("ID"))
             except Exception as e:  # noqa: BLE001
                 got = ["EXC:" + type(e).__name__]
-            exp = ["t:" + hx(wr.xref_rows)] + canon_ref([cfg.id0, cfg.id0[::-1]] if cfg.have_id else None)
+            exp = ["t:" + hx(wr.xref_rows)] + canon_ref([cfg.id0, cfg.id0[::-1]] if cfg.have_id and wr.xref_trailer else None)
             if got != exp:
                 a, b = first_diff(exp, got)
                 fail("the cross-reference stream read through getobj was decrypted (it is never encrypted)", pw,
@@ -623,7 +637,7 @@ def shrink_case(ctx: C.Ctx, case: Case, f: C.Failure) -> C.Failure:
     def build(sub: List[int]) -> Case:
         objs = {n: case.objs[n] for n in case.objs if n in keep or n in sub}
         return Case(case.cfg, objs, case.root, case.info, [m for m in case.members if m in objs], case.layout,
-                    case.indirect, case.wseed, [pw], case.eol)
+                    case.indirect, case.wseed, [pw], case.eol, {n: o for n, o in case.old.items() if n in objs})
 
     def still(sub: List[int]) -> bool:
         try:
@@ -654,7 +668,8 @@ def run_case(ctx: C.Ctx, case: Case, do_text: bool, branch: str, shrink: bool = 
                                    "layout": case.layout, "objects": len(case.objs),
                                    "user": cfg.user[:12], "owner": cfg.owner[:12]}, branch=branch)
     ctx.branch("cfg:V%d/R%d/%s/%d" % (cfg.V, cfg.R, cfg.method, cfg.length))
-    ctx.branch("layout:" + case.layout + (":indirect-encrypt" if case.indirect else ""))
+    ctx.branch("layout:" + case.layout + (":indirect-encrypt" if case.indirect else "") +
+               (":incremental" if case.old else ""))
     ctx.branch("encmeta:" + str(cfg.encrypt_metadata))
     if not cfg.have_id:
         ctx.branch("id:absent")
